@@ -22,7 +22,7 @@ P = {
          "Every context variable x every awkward key through [], in, for, is defined and set; hand-written templates for every situation the statement names, every built-in filter x the whole value zoo x 21 argument lists (direct and through templates), and seeded hostile programs using every tag and operator with inheritance/include/embed/use/import; any panic, process death (stack), step or CPU budget overrun is a violation.",
          "Template call graphs acyclic, range bounds small literals (both outside the claim); contexts limited to the zoo's shapes.", "DESIGN.md#c02"),
  "C04": (True, "exploration", "runtime monitoring: metamorphic oracle - flat vs reference-parenthesised spelling (pinned operator table, precedence climbing) compared on parsed tree and on rendering under 3 valuations",
-         "Exhaustive over all chains of <=2 (quick) / <=4 (thorough) of the 27 binary operators in 10 decorations (unary prefixes, trailing/inner/nested conditional incl. one nested in the true branch, operands that are interpolated strings / calls / filters / subscripts / literals; every other operand name begins with an operator word), random chains of 5..12 operators on top.",
+         "Exhaustive over all chains of <=2 (quick) / <=4 (thorough) of the 27 binary operators in 11 decorations (unary and stacked prefixes, trailing/inner/nested conditional incl. one nested in the true branch, operands that are interpolated strings / calls / filters / subscripts / literals; every other operand name begins with an operator word), random chains of 5..12 operators on top.",
          "The pinned table is the documented one; rendering panics are left to C02.", "DESIGN.md#c04"),
  "C05": (True, "exploration", "runtime monitoring: reference evaluator (executable model) compared on printed value, error-or-not and the recorded callback log of a recording environment",
          "Exhaustive depth-1 operator x operand table plus typed random expression trees (depth<=4 quick, <=6 thorough) with recording functions/filters/tests, spelled with random white space and quotes in odd cases, every third tree re-evaluated three times in one execution under re-assigned variables; l..r for all pairs of 12 bounds against the invariants of an inclusive range; the callback log must match exactly (name, arguments in order, piped value first).",
@@ -34,7 +34,7 @@ P = {
          "Exhaustive within the bound: every if-chain shape x truth assignment, every sequence kind x length 0..8 x loop form with all loop fields printed at every position, every inline-if mask for n<=5 (conditions over the element and over the loop record), loop records kept and read later, non-iterables at top level and nested in every loop kind; random nestings to depth 4.",
          "Loop fields inside inline-if bodies and the else of a fully filtered loop are not claimed (stick and Twig differ).", "DESIGN.md#c06"),
  "C07": (True, "exploration", "%s; a registered probe function reads Context.Scope() after every statement" % M,
-         "Seeded nestings of set/for/if/macro over a 4-name pool with collisions; visibility and value of every pool name observed after every statement, at loop and macro body starts; terminating recursive macros.",
+         "Seeded nestings of set/for/if/macro over a 4-name pool with collisions; visibility and value of every pool name and the complete list of names in scope (names()) observed after every statement, at loop and macro body starts; filter sections; terminating recursive macros.",
          "Assignments to shadowed names, reads before first set in later iterations and macro bodies reading outer variables are excluded (left open by the statement).", "DESIGN.md#c07"),
  "C08": (True, "exploration", "%s and recorded filter-callback log; unique markers on every text run and print" % M,
          "Every nesting of the five capture kinds to depth 2 (quick) / 3 (thorough) x 3 continuations, re-entrant captures (recursive macros, a block rendering itself through block()), random nestings to depth 5 incl. loops, values passed on, includes and embeds of capturing templates, failing renders before every case; any misrouted, duplicated or lost byte shows as a marker mismatch.",
@@ -43,28 +43,28 @@ P = {
          "All override patterns {absent, override, override+parent()} for chains L<=3,B<=2 (quick) / L<=4,B<=4 (thorough) x layouts x 5 use variants (none, plain, aliased, same library at two levels, two use statements in one template), parent() called twice in half of the overriding bodies; random larger shapes with block() and nested blocks in loops.",
          "use only in extending templates; aliased originals unique.", "DESIGN.md#c09"),
  "C10": (True, "exploration", "%s with scope probes in host and target; exhaustive product of include/embed forms, call sites, targets and override subsets" % M,
-         "2 x 7 x 6 x 5 x 4 x 2 coordinates all run in quick (loop variable colliding once as a string and once as null, construct used again right after the loop), random nested include-in-embed-in-include on top; host variables probed after the construct, target variables probed inside.",
+         "2 x 7 x 6 x 5 x 4 x 2 coordinates all run in quick (loop variable colliding once as a string and once as null, construct used again right after the loop), random nested include-in-embed-in-include on top; host variables and the complete scope listing probed after the construct, target variables probed inside; with-hashes of four Go map types.",
          "Macro call sites use the only forms.", "DESIGN.md#c10"),
  "C11": (True, "exploration", "%s, recorded callback log, and metamorphic comparison of the call forms" % M,
-         "params 0..4 x args 0..6 x 5 call forms x 9 uses exhaustively (incl. twice in a row, after a loop, one import statement executed with computed names, a from-import named like a registered function), unknown-macro errors, terminating recursion, random acyclic macro nests.",
+         "params 0..4 x args 0..6 x 5 call forms x 9 uses exhaustively (incl. twice in a row, after a loop, one import statement executed with computed names, a from-import named like a registered function, definition and call inside embedded/included templates), unknown-macro errors, terminating recursion, random acyclic macro nests.",
          "Stated exclusions (_self through imports, definitions before calls, bodies use parameters only).", "DESIGN.md#c11"),
  "C12": (True, "exploration", "runtime monitoring: sentinel-bracketed prints in a Twig environment; per-segment exactness against the escaper for the statement's content-type rule and whole-output scan for significant characters",
-         "Exhaustive product of 20 template names x 37 constructs x same/different helper type x 13 payloads x 9 value wrappers (incl. derived safe values and defined scalar types with a String method); random payloads over the significant alphabet on top.",
+         "Exhaustive product of 29 template names x 38 constructs x same/different helper type x 13 payloads x 9 value wrappers (incl. derived safe values and defined scalar types with a String method); random payloads over the significant alphabet on top.",
          "User-registered escapers not exercised; indirect prints (captures, macros, block(), parent()) are held to safety only, as the statement does.", "DESIGN.md#c12"),
  "C14": (True, "exploration", "runtime monitoring: metamorphic oracle - every re-spelling (whitespace at each token boundary, quotes, trailing commas, trim markers) must render the same bytes, error kind and callback log as the canonical spelling",
          "One template per tag kind and expression form (41), each at 5 placements; exhaustive single-boundary sweep x 7 whitespace strings, pairwise sweeps, uniform and combined variants; random programs x random re-spellings.",
          "Tokens are the generator's; whitespace may be empty only where tokens cannot merge (gen.CanAbut).", "DESIGN.md#c14"),
  "C17": (True, "fault_enumeration", "runtime monitoring with fault injection: recording fault writer (fails at the k-th Write, whole or half) and fault loader (k-th Load: error or broken source), failing constructs with recorded marker calls; differential against the fault-free run",
-         "Every fault point of every template of the set: writer at each k=1..W (three modes: reject, accept half, accept all and report an error), ExecuteSafe again after a failed delivery, loader at each k=1..L (two modes, Execute and ExecuteSafe), a failing construct at each node boundary of generated programs; oracles: non-nil error, accepted bytes are a prefix, no Write after a failed Write, ExecuteSafe writes nothing on failure and equals Execute on success.",
+         "Every fault point of every template of the set: writer at each k=1..W (three modes: reject, accept half, accept all and report an error), ExecuteSafe again after a failed delivery, failing hash keys, loops over scalars, loader at each k=1..L (two modes, Execute and ExecuteSafe), a failing construct at each node boundary of generated programs; oracles: non-nil error, accepted bytes are a prefix, no Write after a failed Write, ExecuteSafe writes nothing on failure and equals Execute on success.",
          "Template set = 22 hand-written + 300 (quick) / 3000 (thorough) generated programs; a writer fault in ExecuteSafe must be reported but may leave partial output.", "DESIGN.md#c17"),
  "C18": (True, "exploration", "Go race detector (-race workers, halt_on_error=0, logs parsed and deduplicated by the driver) plus differential monitor: every concurrent result equals the sequential result on a fresh environment; yield-injecting traverse hook and interleaving fingerprints in plain workers",
-         "Rounds of N in {2,4,16,64} goroutines x GOMAXPROCS {1,2,16} doing mixed Execute/Parse on one shared Twig and one shared core environment over 37 hand-written templates of mixed content types (failing captures, filters over a slice with spare capacity and a map shared by all contexts, checked intact after every round) and 10/24 generated programs; calls with and without a context map; error values held until the end of the round and read again; half the rounds under the race detector with a bare-Gosched hook, half in the plain build with seeded yields and an event log.",
+         "Rounds of N in {2,4,16,64} goroutines x GOMAXPROCS {1,2,16} doing mixed Execute/Parse on one shared Twig and one shared core environment over 37 hand-written templates of mixed content types (failing captures, filters over a slice with spare capacity and a map shared by all contexts, checked intact after every round) and 10/24 generated programs; calls with and without a context map; error values held until the end of the round and read again; a rendezvous in a six-deep include chain in the 64-goroutine rounds; half the rounds under the race detector with a bare-Gosched hook, half in the plain build with seeded yields and an event log.",
          "Only the schedules the Go scheduler plus the yield hook produce; harness callbacks are pure.", "DESIGN.md#c18"),
  "C19": (True, "exploration", "runtime monitoring: goroutine census (runtime.Stack(all)), live-tokeniser gauge from the verif hook and /proc/self/fd census after every call of a history, GC disabled",
          "Every corpus template with a syntax error injected at every (quick: every third) fragment boundary through string/memory/filesystem loaders, every sequence of <=3/<=4 hostile fragments, plus seeded histories of up to 50/200 calls (settled files reloaded through one loader) mixing valid templates, tokeniser/parser failures, broken includes/extends/imports, run-time failures and missing files.",
          "A goroutine present after 200 yield+1ms rounds is blocked (leaked tokenisers block on a channel nobody drains).", "DESIGN.md#c19"),
  "C20": (True, "exploration", "runtime monitoring: self-identifying anchors recorded by the speller vs positions reported by the parsed tree; reference scanner for truncations; injected tokens located by content; named-template errors",
-         "Positions on 8k/300k multi-line templates; every truncation offset of the injection and generated templates; '@' at every token boundary, a surplus literal before every closing delimiter, a stray closing bracket at every bracket-free boundary and an unknown tag; 95 kinds of broken template under 7 names through 8 loading paths; at every statement position of 41 templates x 3 placements; broken named templates through 8 loading paths.",
+         "Positions on 8k/300k multi-line templates; every truncation offset of the injection and generated templates; '@' at every token boundary, a surplus literal before every closing delimiter, a stray closing bracket at every bracket-free boundary and an unknown tag; 101 kinds of broken template under 7 names through 8 loading paths; error text must agree with the error's position; at every statement position of 41 templates x 3 placements; broken named templates through 8 loading paths.",
          "Comments, filters, attribute and operator expressions are not anchors named by the statement; injections inside endverbatim excluded.", "DESIGN.md#c20"),
 }
 NOT_BUILT_REASON = "check not built yet in this round (planned: see DESIGN.md section for this property)"
